@@ -372,6 +372,7 @@ def ob_prune_coverage(run, oid):
 
 
 def check(run):
+    ob_direct_reporting(run, "O8.13")
     ob_implicit_sources(run, "O8.12")
     ob_status_reporting(run, "O8.11")
     D.ob_watermark_comparisons(run, "O8.10", ["consensus::pool", "consensus::votor"], 14,
@@ -406,7 +407,15 @@ def displaced_outcomes(prog, b, ins, stop_calls):
     start = [c for (c, l) in succ.get(ins.bb, [])]
     stack = [(s, frozenset(ALL_STATUS), frozenset([ins.bb])) for s in start]
     pushes = set(c.bb for c in stop_calls)
-    inserts = set(c.bb for c in b.calls() if c.name.endswith("BTreeMap::insert") and K.mentions_field(b.operand_term(c.args[0]), "status", "FinalityTracker"))
+    # a later insert that puts the displaced value back ends the case silently; an insert of a NEW status is just a step on the way
+    inserts = set()
+    for c in b.calls():
+        if c.name.endswith("BTreeMap::insert") and K.mentions_field(b.operand_term(c.args[0]), "status", "FinalityTracker") and c.bb != ins.bb:
+            vt = b.operand_term(c.args[2])
+            pv = K.peel(vt)
+            builds_new = isinstance(pv, tuple) and pv and pv[0] == "agg" and str(pv[1]).endswith("FinalizationStatus")
+            if not builds_new and (is_old(vt) or any(x.endswith("BTreeMap::insert") for x in b.provenance(vt)["calls"])):
+                inserts.add(c.bb)
     n = 0
     while stack:
         bb, cases, seen = stack.pop()
@@ -518,3 +527,37 @@ def ob_implicit_sources(run, oid):
             o.check(K.is_arg(b, par, 3) and K.mentions_arg(b, b.operand_term(c.args[1]), 2), key + "|args", "handle_implicitly_finalized(block.slot, parent, ..) with add_parent's own arguments", c.span)
         else:
             o.fail(key + "|caller", "handle_implicitly_finalized called from unreviewed function %s" % fn, c.span)
+
+
+def ob_direct_reporting(run, oid):
+    """mark_fast_finalized / mark_notarized / mark_finalized: for which displaced statuses the slot is reported as directly finalized
+    (path classification by the value displaced by status.insert, like O8.11)"""
+    prog = run.program("lib")
+    o = run.ob(oid, "direct finalization is reported exactly for the displaced statuses that justify it, and never for a slot that was already decided",
+               "reporting a slot that was already finalized (directly or implicitly) finalizes it a second time; reporting it from another status finalizes without the certificates", floor=6)
+    want = {
+        # fn: (statuses for which handle_finalized_block must be reached or panic, statuses for which it must not be reached)
+        "mark_fast_finalized": (UNDECIDED, {"Finalized", "ImplicitlyFinalized"}),
+        "mark_notarized": ({"FinalPendingNotar"}, ALL_STATUS - {"FinalPendingNotar"}),
+        "mark_finalized": ({"Notarized"}, ALL_STATUS - {"Notarized"}),
+    }
+    for fn, (must, never) in want.items():
+        b = prog.body(FT + "::" + fn)
+        if b is None:
+            o.missing("FinalityTracker::" + fn)
+            continue
+        ins = [c for c in b.calls() if c.name.endswith("BTreeMap::insert") and K.mentions_field(b.operand_term(c.args[0]), "status", "FinalityTracker")
+               and not K.mentions_call(b.operand_term(c.args[2]), "BTreeMap::insert") and not any(
+                   isinstance(x, tuple) and x and x[0] == "local" for x in [K.peel(b.operand_term(c.args[2]))])]
+        first = [c for c in ins if not any(b.dominates(o2.bb, c.bb) for o2 in ins if o2 is not c)]
+        rep = [c for c in b.calls() if c.name == FT + "::handle_finalized_block"]
+        if len(first) != 1 or not rep:
+            o.fail("%s|sites" % fn, "expected one leading status.insert and a call of handle_finalized_block (found %d / %d)" % (len(first), len(rep)), b.span)
+            continue
+        res = displaced_outcomes(prog, b, first[0], rep)
+        if res is None:
+            o.fail("%s|paths" % fn, "too many paths", b.span)
+            continue
+        det = {k: sorted(v) for k, v in res.items()}
+        o.check(not (res["silent"] & must), "%s|justified-always-reported" % fn, "displaced %s => reported as finalized (or the contradiction panics)" % sorted(must), first[0].span, det)
+        o.check(not (res["push"] & never), "%s|others-never-reported" % fn, "displaced %s => never reported (again)" % sorted(never), first[0].span, det)
